@@ -3,7 +3,7 @@ import re
 from ..engines import e1_div
 from ..lib.cfgq import switch_edges, dominating_guards
 from ..lib.facts import is_callee, callee_fn, sp_str, const_str
-from ..lib.trace import Tracer, canon, strip, walk, mentions_field
+from ..lib.trace import Tracer, canon, canon_full, strip, walk, mentions_field
 from .C10 import _Filter
 
 LEVEL_TEXT = ("Parser-discipline rules on the MIR of parser.rs: (E7.w) the position state (offset, location, chars) has a single writer, "
@@ -308,6 +308,95 @@ def run(prog, rep):
                   "parse_query transforms the query text before appending the full-match capture (or appends something else)")
     else:
         rep.violation("E7.a", "anchor-lost:parse_query", "", "not found")
+    # ---- E7.n numerals: maximal munch
+    rep.rule("E7.n", "numerals ($n, integer constants) are the maximal run of digits at the position — consume_while(is_ascii_digit) on every path to an Ok result — and the value is the radix-10 reading of exactly that slice")
+    for nm, field in (("parse_integer_constant", "value"), ("parse_regex_capture", "match_index")):
+        fl = [f for f in pf if f.name == nm]
+        if len(fl) != 1:
+            rep.violation("E7.n", "anchor-lost:%s" % nm, "", "not found")
+            continue
+        f = fl[0]
+        body, tr = f.body, Tracer(f.body)
+        from ..engines import e1_div as _d
+        from ..lib.trace import inline_local_calls
+        by_id = {g.id: g for g in pf}
+        preds = _d._consume_while_preds(prog, f, by_id)
+        through = digit = any(p_.endswith("is_ascii_digit") for p_ in preds)
+        aggs = [st for b in sorted(body.reachable()) for st in body.blocks[b]["stmts"] if st["k"] == "assign" and st["rv"]["k"] == "aggregate" and field in st["rv"].get("fields", [])]
+        val = canon_full(inline_local_calls(prog, tr.operand(dict(zip(aggs[0]["rv"]["fields"], aggs[0]["rv"]["ops"]))[field]))) if len(aggs) == 1 else ""
+        while "*&" in val:
+            val = val.replace("*&", "")
+        okv = re.search(r"::from_str_radix\(&?\*?Index::index\(&?\*+arg:self\.source, ops::Range::Range\{\*arg:self\.offset, \*arg:self\.offset\}\), 10_u32\)", val) is not None
+        rep.check(through and digit and okv, "E7.n", "%s :: digit run" % nm, f.loc(), "consume_while(is_ascii_digit), value = from_str_radix(source[start..end], 10)",
+                  "%s does not read the maximal digit run (consume_while on every Ok path: %s, digit predicate: %s, value from the slice: %s): `$12` / `123` can be split into a shorter numeral and trailing digits" % (nm, through, digit, okv))
+    # ---- E7.x query extent: string/escape/comment state of skip_query
+    rep.rule("E7.x", "skip_query: inside a query string a backslash sets an escape flag that makes exactly the next character inert; only an unescaped `\"` (or a newline) closes the string, so the `{` that ends the query is found for every string content")
+    sq = [f for f in pf if f.name == "skip_query"]
+    if len(sq) != 1:
+        rep.violation("E7.x", "anchor-lost:skip_query", "", "not found")
+    else:
+        f = sq[0]
+        body, tr = f.body, Tracer(f.body)
+        flags = [l for l, decl in enumerate(body.locals) if f.ty(decl["ty"]).k == "bool" and decl.get("name")]
+        def flag_of_guard(g):
+            t = body.term(g.src)
+            if t["k"] != "switch" or t["discr"].get("k") not in ("copy", "move") or "p" in t["discr"]["p"]:
+                return None
+            d = t["discr"]["p"]["l"]
+            if d in flags:
+                return d
+            for (b, idx, kind, payload) in body.defs().get(d, []):
+                if kind == "assign" and payload["k"] == "use" and payload["op"].get("k") in ("copy", "move") and "p" not in payload["op"]["p"] and payload["op"]["p"]["l"] in flags:
+                    return payload["op"]["p"]["l"]
+            return None
+        table = []      # (flag, value, {flag guards}, {char guards})
+        for l in flags:
+            for (b, idx, kind, payload) in body.defs().get(l, []):
+                if kind != "assign" or b == 0:
+                    continue
+                val = canon(tr.rvalue(payload))
+                fg, cg = {}, set()
+                for g in dominating_guards(body, tr, b):
+                    fl_ = flag_of_guard(g)
+                    if fl_ is not None:
+                        fg[fl_] = g.value
+                    elif "Parser::peek" in canon(g.cond) and isinstance(g.value, int) and not isinstance(g.value, bool) and g.variant is None:
+                        cg.add(g.value)
+                    elif "Parser::peek" in canon(g.cond) and re.search(r" Eq '(.|\\.)'\)$", canon(g.cond)) and g.value is True:
+                        m = re.search(r" Eq '(.*)'\)$", canon(g.cond))
+                        cg.add({"\\n": 10, "\\\\": 92}.get(m.group(1), ord(m.group(1)[0])))
+                # `'"' | '\n' => …`: several switch values lead to the same block (no single dominating edge)
+                for pb in body.pred(b):
+                    pt = body.term(pb)
+                    if pt["k"] == "switch" and "Parser::peek" in canon(tr.operand(pt["discr"])):
+                        vals = [int(v) for v, tb in pt["targets"] if tb == b]
+                        if len(vals) > 1:
+                            cg |= set(vals)
+                table.append((l, val, fg, cg))
+        esc = [(l, fg) for l, val, fg, cg in table if val == "true" and 92 in cg]
+        ok = len(esc) == 1
+        detail = "no flag is set by a backslash"
+        if ok:
+            E, fg = esc[0]
+            strs = [x for x, v in fg.items() if x != E and v is True]
+            ok = fg.get(E) is False and len(strs) == 1
+            detail = "the backslash flag is not set only inside a string and outside an escape"
+            if ok:
+                S = strs[0]
+                clear = [(fg2, cg2) for l, val, fg2, cg2 in table if l == E and val == "false"]
+                ok = len(clear) == 1 and clear[0][0] == {E: True} and not clear[0][1]
+                detail = "the escape flag is not cleared unconditionally by the next character"
+                if ok:
+                    closes = [(fg2, cg2) for l, val, fg2, cg2 in table if l == S and val == "false"]
+                    ok = bool(closes) and all(fg2.get(E) is False and fg2.get(S) is True for fg2, cg2 in closes) and {c for fg2, cg2 in closes for c in cg2} <= {34, 10} and 34 in {c for fg2, cg2 in closes for c in cg2}
+                    detail = "the string is closed under another condition than an unescaped quote / newline"
+                    # while escaped, nothing else is decided: no other flag changes and no return
+                    if ok:
+                        others = [1 for l, val, fg2, cg2 in table if l != E and fg2.get(E) is True]
+                        ok = not others
+                        detail = "an escaped character is interpreted"
+        rep.check(ok, "E7.x", "skip_query :: string escapes", f.loc(), "escape flag: set by `\\` in a string, cleared by the next character, which is otherwise ignored; `\"` closes only when unescaped",
+                  "skip_query does not track string escapes with a one-character escape state (%s): a query string ending in an escaped backslash (or containing an escaped quote) moves the end of the query" % detail)
     # ---- E7.q sequences
     rep.rule("E7.q", "parse_sequence: every element is parsed only after the next character was compared with the end marker (an empty remainder — `[a,]` — is a valid sequence)")
     psq = [f for f in pf if f.name == "parse_sequence"]
